@@ -200,7 +200,24 @@ fn judge_build(build: Build, sc: &Scenario, mut st: Option<&mut Stats>) -> Optio
                     // (no-alloc build: a sentence whose payload exceeds the fixed 384-byte buffer may
                     // be rejected for capacity whatever its checksum - C18's carve-out, not judged)
                     let over_capacity = build == Build::None && lx.field(&l.bytes, 5).map_or(false, |p| p.len() > 384);
-                    if l.form_ok && v <= 0xff && lx.fields.len() == 7 && v != x as u32 && !over_capacity {
+                    // "otherwise well-formed" is ground truth from the generator for the fields the
+                    // property lists, and for the rest of the rendering (tag block, delimiter, number
+                    // padding, trailing bytes ...) it is decided by the real code: the same rendering
+                    // with a *correct* checksum and the header of an unfragmented sentence must be
+                    // accepted by a fresh parser of this build. Otherwise the line is rejected for
+                    // its form or for capacity whatever its checksum - not the gate's business.
+                    let clause3 = l.form_ok && v <= 0xff && lx.fields.len() == 7 && v != x as u32 && !over_capacity;
+                    let rendering_accepted = clause3
+                        && match reheaded_unfragmented(&l.bytes) {
+                            Some(probe) => matches!(new_node(build).parse(&probe, false, false), Outcome::Complete(ref s, _) if s.n == 1),
+                            None => false,
+                        };
+                    if clause3 && !rendering_accepted {
+                        if let Some(st) = stg.as_deref_mut() {
+                            st.unscoped += 1;
+                        }
+                    }
+                    if clause3 && rendering_accepted {
                         if let Some(st) = stg.as_deref_mut() {
                             st.judged += 1;
                             st.probe("well-formed line with wrong checksum (ground truth) judged");
